@@ -133,6 +133,10 @@ func convertSliceOrArray(ctx context.Context, rv reflect.Value, rt reflect.Type)
 	// try to covert elements to new slice/array
 	var value reflect.Value
 	if rt.Kind() == reflect.Slice {
+		if rv.Kind() == reflect.Slice && rv.IsNil() {
+			// a nil slice stays nil, as in Go
+			return reflect.Zero(rt), nil
+		}
 		// make slice
 		value = reflect.MakeSlice(rt, rv.Len(), rv.Len())
 	} else {
